@@ -19,7 +19,7 @@ from fractions import Fraction
 
 import numpy as np
 
-LEAN_TARGETS = ["YProofs.Props.C13"]
+LEAN_TARGETS = ["YProofs.Props.C13", "YProofs.Props.C13Error"]
 LEVEL = "proof"
 TRANSLATORS = []
 DRIVER = "drv_c13"
